@@ -501,12 +501,15 @@ impl MDL {
         for i in 0..model.header.lod_count {
             let mut parts = vec![];
 
-            for j in model.lods[i as usize].mesh_index
-                ..model.lods[i as usize].mesh_index + model.lods[i as usize].mesh_count
-            {
-                let declaration = &model.header.vertex_declarations[j as usize];
-                let vertex_count = model.meshes[j as usize].vertex_count;
-                let material_index = model.meshes[j as usize].material_index;
+            // damaged counts and indices must not index past the tables
+            let lod = model.lods.get(i as usize)?;
+            let index_offset = *model_file_header.index_offsets.get(i as usize)? as u64;
+
+            for j in lod.mesh_index..lod.mesh_index.checked_add(lod.mesh_count)? {
+                let declaration = model.header.vertex_declarations.get(j as usize)?;
+                let mesh = model.meshes.get(j as usize)?;
+                let vertex_count = mesh.vertex_count;
+                let material_index = mesh.material_index;
 
                 let mut vertices: Vec<Vertex> = vec![Vertex::default(); vertex_count as usize];
 
@@ -514,14 +517,13 @@ impl MDL {
                     for element in &declaration.elements {
                         cursor
                             .seek(SeekFrom::Start(
-                                (model.lods[i as usize].vertex_data_offset
-                                    + model.meshes[j as usize].vertex_buffer_offsets
-                                        [element.stream as usize]
-                                    + element.offset as u32
-                                    + model.meshes[j as usize].vertex_buffer_strides
-                                        [element.stream as usize]
-                                        as u32
-                                        * k as u32) as u64,
+                                lod.vertex_data_offset as u64
+                                    + *mesh.vertex_buffer_offsets.get(element.stream as usize)?
+                                        as u64
+                                    + element.offset as u64
+                                    + *mesh.vertex_buffer_strides.get(element.stream as usize)?
+                                        as u64
+                                        * k as u64,
                             ))
                             .ok()?;
 
@@ -660,30 +662,24 @@ impl MDL {
 
                 cursor
                     .seek(SeekFrom::Start(
-                        (model_file_header.index_offsets[i as usize]
-                            + (model.meshes[j as usize].start_index * size_of::<u16>() as u32))
-                            as u64,
+                        index_offset + mesh.start_index as u64 * size_of::<u16>() as u64,
                     ))
                     .ok()?;
 
                 // TODO: optimize!
-                let mut indices: Vec<u16> =
-                    Vec::with_capacity(model.meshes[j as usize].index_count as usize);
-                for _ in 0..model.meshes[j as usize].index_count {
+                let mut indices: Vec<u16> = Vec::new();
+                for _ in 0..mesh.index_count {
                     indices.push(cursor.read_le::<u16>().ok()?);
                 }
 
-                let mut submeshes: Vec<SubMesh> =
-                    Vec::with_capacity(model.meshes[j as usize].submesh_count as usize);
-                for i in 0..model.meshes[j as usize].submesh_count {
+                let mut submeshes: Vec<SubMesh> = Vec::with_capacity(mesh.submesh_count as usize);
+                for i in 0..mesh.submesh_count {
+                    let submesh_index = mesh.submesh_index as usize + i as usize;
+                    let submesh = model.submeshes.get(submesh_index)?;
                     submeshes.push(SubMesh {
-                        submesh_index: model.meshes[j as usize].submesh_index as usize + i as usize,
-                        index_count: model.submeshes
-                            [model.meshes[j as usize].submesh_index as usize + i as usize]
-                            .index_count,
-                        index_offset: model.submeshes
-                            [model.meshes[j as usize].submesh_index as usize + i as usize]
-                            .index_offset,
+                        submesh_index,
+                        index_count: submesh.index_count,
+                        index_offset: submesh.index_offset,
                     });
                 }
 
@@ -696,9 +692,7 @@ impl MDL {
                         .iter()
                         .skip(shape.shape_mesh_start_index[i as usize] as usize)
                         .take(shape.shape_mesh_count[i as usize] as usize)
-                        .filter(|shape_mesh| {
-                            shape_mesh.mesh_index_offset == model.meshes[j as usize].start_index
-                        })
+                        .filter(|shape_mesh| shape_mesh.mesh_index_offset == mesh.start_index)
                         .collect();
 
                     let shape_values: Vec<&ShapeValue> = affected_shape_mesh
@@ -711,12 +705,9 @@ impl MDL {
                                 .take(shape_mesh.shape_value_count as usize)
                         })
                         .filter(|shape_value| {
-                            shape_value.base_indices_index
-                                >= model.meshes[j as usize].start_index as u16
+                            shape_value.base_indices_index >= mesh.start_index as u16
                                 && shape_value.base_indices_index
-                                    < (model.meshes[j as usize].start_index
-                                        + model.meshes[j as usize].index_count)
-                                        as u16
+                                    < mesh.start_index.wrapping_add(mesh.index_count) as u16
                         })
                         .collect();
 
@@ -724,11 +715,12 @@ impl MDL {
 
                     if !shape_values.is_empty() {
                         for shape_value in shape_values {
-                            let old_vertex =
-                                vertices[indices[shape_value.base_indices_index as usize] as usize];
-                            let new_vertex = vertices[shape_value.replacing_vertex_index as usize];
-                            let vertex = &mut morphed_vertices
-                                [indices[shape_value.base_indices_index as usize] as usize];
+                            let base_index =
+                                *indices.get(shape_value.base_indices_index as usize)? as usize;
+                            let old_vertex = *vertices.get(base_index)?;
+                            let new_vertex =
+                                *vertices.get(shape_value.replacing_vertex_index as usize)?;
+                            let vertex = morphed_vertices.get_mut(base_index)?;
 
                             vertex.position[0] = new_vertex.position[0] - old_vertex.position[0];
                             vertex.position[1] = new_vertex.position[1] - old_vertex.position[1];
@@ -754,20 +746,17 @@ impl MDL {
 
                 let mut vertex_streams = vec![];
                 let mut vertex_stream_strides = vec![];
-                let mesh = &model.meshes[j as usize];
                 for stream in 0..mesh.vertex_stream_count {
                     let mut vertex_data = vec![];
-                    let stride = mesh.vertex_buffer_strides[stream as usize];
+                    let stride = *mesh.vertex_buffer_strides.get(stream as usize)?;
                     for z in 0..mesh.vertex_count {
                         // TODO: read the entire vertex data into a buffer
                         // Handle the offsets within Novus itself
                         cursor
                             .seek(SeekFrom::Start(
-                                (model.lods[i as usize].vertex_data_offset
-                                    + model.meshes[j as usize].vertex_buffer_offsets
-                                        [stream as usize]
-                                    + (z as u32 * stride as u32))
-                                    as u64,
+                                lod.vertex_data_offset as u64
+                                    + *mesh.vertex_buffer_offsets.get(stream as usize)? as u64
+                                    + z as u64 * stride as u64,
                             ))
                             .ok()?;
 
@@ -777,8 +766,7 @@ impl MDL {
                     }
 
                     vertex_streams.push(vertex_data);
-                    vertex_stream_strides
-                        .push(mesh.vertex_buffer_strides[stream as usize] as usize);
+                    vertex_stream_strides.push(stride as usize);
                 }
 
                 parts.push(Part {
